@@ -22,7 +22,7 @@ struct sl_rec { // one listener
     size_t expect_n = 0;  // model: number of values it must have by now
     // "pausing" coroutine listener: after its first value it waits for something else (a gate) while KEEPING its emitter object, and
     // re-awaits the emitter only when the gate opens. While it is away it is not a waiting listener.
-    bool pausing = false, away = false;
+    bool pausing = false, away = false, away_done = false; int canceled_again = 0;
     std::unique_ptr<cocls::future<void>> gate; std::optional<cocls::promise<void>> gate_prom;
 };
 inline cocls::async<void> sl_listener(cocls::signal<int>::emitter em, sl_rec &rec) {
@@ -204,8 +204,16 @@ inline cocls::async<void> sl_hook_listener(sl_generator &G, sl_rec &rec, int idx
         do {
             int &v = co_await e;
             rec.vals.push_back(v);
+            if (rec.pausing && rec.gate && !rec.away_done) { // busy elsewhere for a while, the hooked emitter object stays alive
+                rec.away = true; rec.away_done = true;
+                bool hv = co_await rec.gate->has_value(); (void)hv;
+                rec.away = false;
+            }
         } while (rec.forever);
     } catch (const cocls::await_canceled_exception &) { rec.canceled++; }
+    if (rec.canceled) { // awaiting the (now disconnected) hooked emitter AGAIN must fail immediately as well - not suspend for ever
+        try { int &v = co_await e; (void)v; rec.vals.push_back(-12345); } catch (const cocls::await_canceled_exception &) { rec.canceled_again++; }
+    }
     rec.finished++;
 }
 inline std::string run_hookup_history(vf::rng &r, std::string &trace, int &ops) {
@@ -226,23 +234,35 @@ inline std::string run_hookup_history(vf::rng &r, std::string &trace, int &ops) 
         if (x < 40 && L.size() < 8) {
             L.emplace_back(); want.emplace_back(); sl_rec &l = L.back();
             l.forever = r.chance(3, 4);
+            l.pausing = l.forever && r.chance(1, 3);
+            if (l.pausing) { l.gate = std::make_unique<cocls::future<void>>(); l.gate_prom.emplace(l.gate->get_promise()); }
             int first = r.chance(1, 2) ? next_val++ : -1;
             bool in_coro = r.chance(1, 3);
             trace += std::string(in_coro ? "[coroutine mode] " : "") + (l.forever ? "hook_up" : "hook_up-once") + (first >= 0 ? "(emits on registration) " : " ");
             int idx = (int)L.size() - 1;
             if (in_coro) cocls::coro_queue::install_queue_and_call([&] { sl_hook_listener(G, l, idx, first).detach(); }); else sl_hook_listener(G, l, idx, first).detach();
             l.waiting = true;
-            if (first >= 0) { want.back().push_back(first); if (!l.forever) l.waiting = false; }
+            if (first >= 0) { want.back().push_back(first); if (!l.forever || l.pausing) l.waiting = false; }
             if (G.registrations != idx + 1 && err.empty()) err = "registration function of hook_up was not called exactly once at the first co_await";
             check_all("hook_up");
         } else if (x < 90 && !G.cols.empty()) {
             int v = next_val++;
             bool in_coro = r.chance(1, 3);
             trace += std::string(in_coro ? "[coroutine mode] " : "") + "emit ";
-            for (size_t i = 0; i < L.size(); i++) if (L[i].waiting) { want[i].push_back(v); if (!L[i].forever) L[i].waiting = false; }
+            for (size_t i = 0; i < L.size(); i++) if (L[i].waiting) { want[i].push_back(v); if (!L[i].forever || (L[i].pausing && L[i].gate_prom)) L[i].waiting = false; }
             auto doit = [&] { for (auto &c : G.cols) c(v); };
             if (in_coro) cocls::coro_queue::install_queue_and_call(doit); else doit();
             check_all("emit");
+        } else if (x >= 96) { // an away listener comes back and awaits its hooked emitter again
+            for (size_t i = 0; i < L.size(); i++) if (L[i].pausing && L[i].gate_prom && L[i].away) {
+                trace += "hooked-listener-returns ";
+                bool connected_i = false; for (int ow : G.owner) if (ow == (int)i) connected_i = true;
+                (*L[i].gate_prom)(); L[i].gate_prom.reset();
+                if (connected_i) L[i].waiting = true;
+                else if (L[i].canceled != 1 || !L[i].finished) err = "a hooked listener that came back after its collector was dropped was not failed immediately with await_canceled_exception (suspended for ever)";
+                break;
+            }
+            check_all("hooked-listener-returns");
         } else if (x < 96 && !G.cols.empty()) {
             trace += "generator drops all collectors ";
             G.cols.clear(); G.owner.clear();
@@ -253,7 +273,9 @@ inline std::string run_hookup_history(vf::rng &r, std::string &trace, int &ops) 
             check_all("drop");
         }
     }
-    G.cols.clear();
+    G.cols.clear(); G.owner.clear();
+    for (auto &l : L) if (l.gate_prom) { (*l.gate_prom)(); l.gate_prom.reset(); }
+    for (size_t i = 0; i < L.size() && err.empty(); i++) if (L[i].canceled && L[i].canceled_again != 1) err = "hooked listener #" + std::to_string(i) + ": awaiting the disconnected emitter again after the cancellation did not fail immediately";
     for (size_t i = 0; i < L.size() && err.empty(); i++) if (L[i].finished != 1) err = "hooked listener #" + std::to_string(i) + " finished " + std::to_string(L[i].finished) + " times after its collector was dropped";
     if (err.empty()) check_all("final drop");
     return err;
